@@ -371,9 +371,22 @@ func runC07(e *core.Env) error {
 		}
 		return s
 	}
+	var lastClient *jrpc2.Client
+	runOn := func(cl *jrpc2.Client, flt *glf.Filter, start, limit uint64) string {
+		var bs []eth.Block
+		return core.Protect(func() string {
+			var err error
+			bs, err = cl.Get(ctx, url, flt, start, limit)
+			if err != nil {
+				return "err"
+			}
+			return "ok " + blocksDigest(bs)
+		})
+	}
 	run := func(flt *glf.Filter, start, limit uint64) (string, []simnode.Exchange) {
 		node.ResetLog()
-		cl := jrpc2.New(url)
+		cl := jrpc2.New(node.URL()) // a fresh client with its caches ON (the first request is a miss; retries may hit)
+		lastClient = cl
 		var bs []eth.Block
 		out := core.Protect(func() string {
 			var err error
@@ -418,6 +431,23 @@ func runC07(e *core.Env) error {
 						n++
 					})
 					impl, exs2 := run(flt, start, limit)
+					cl := lastClient
+					if changed {
+						// the ordinary retry on the SAME client (its caches included): first with the source
+						// still answering the same way, then with the source healthy again. Each attempt must
+						// fail or return the source's honest data - a rejected response is never served later.
+						n = 0
+						again := runOn(cl, flt, start, limit)
+						node.SetAfter(nil)
+						healed := runOn(cl, flt, start, limit)
+						for i, v := range []string{again, healed} {
+							if v == "err" {
+								v = honest
+							}
+							e.Add(core.Case{Impl: v, Spec: honest, Key: fmt.Sprintf("c07-retry%d %s %d %d %d %v %v", i, plan, start, limit, xi, ci, el), Tags: []string{"retry-same-client", "first:" + strings.SplitN(impl, " ", 2)[0]},
+								Detail: map[string]any{"plan": plan, "start": start, "limit": limit, "exchange": xi, "class": tag, "element": el, "attempt": []string{"first", "again-while-corrupt", "after-source-healed"}[i+1], "first_attempt": strings.SplitN(impl, " ", 2)[0]}})
+						}
+					}
 					node.SetAfter(nil)
 					if !changed {
 						return
